@@ -4,7 +4,7 @@
    Part 3: Base64 encoder = the group-wise RFC 4648 encoder of the flat byte string, for every split
    Part 4: Base64 round trip *)
 From Coq Require Import ZArith List Bool Lia ZifyBool.
-From Verif Require Import Word Bits Transform.
+From Verif Require Import Word Bits Gen_transform Transform.
 Import ListNotations.
 Local Open Scope Z_scope.
 
@@ -591,7 +591,7 @@ Proof. intros. change 63 with (2 ^ 6 - 1). rewrite land_low by lia. lia. Qed.
 Lemma rdo_e64 : forall site k, 0 <= k < 64 -> rdo site base64_encode_table k = Ok (e64 k).
 Proof.
   intros site k Hk. unfold rdo, rd, e64. destruct (Z.ltb_spec k 0); [lia|].
-  rewrite (nth_error_nth' base64_encode_table 0); [reflexivity|]. change (length base64_encode_table) with 64%nat. lia.
+  rewrite (nth_error_nth' base64_encode_table 0); [reflexivity|]. change (length base64_encode_table) with 65%nat. lia.
 Qed.
 
 Lemma tput64 : forall site cap n l k, 0 <= k < 64 -> 0 <= n < cap ->
@@ -930,10 +930,10 @@ Proof.
       assert (He : forall k, byte (e64 k)).
       { intros k. unfold e64. destruct (Z_lt_le_dec k 0) as [Hk|Hk].
         - replace (Z.to_nat k) with 0%nat by lia. cbn. unfold byte; lia.
-        - destruct (Z_lt_le_dec k 64) as [Hk2|Hk2].
-          + assert (H : forallb (fun k => (0 <=? e64 k) && (e64 k <? 256)) (zrange 64) = true) by (vm_compute; reflexivity).
-            pose proof (forallb_zrange 64 _ H k ltac:(lia)) as Hq. cbv beta in Hq. unfold e64 in Hq. unfold byte. lia.
-          + rewrite nth_overflow by (change (length base64_encode_table) with 64%nat; lia). unfold byte; lia. }
+        - destruct (Z_lt_le_dec k 65) as [Hk2|Hk2].
+          + assert (H : forallb (fun k => (0 <=? e64 k) && (e64 k <? 256)) (zrange 65) = true) by (vm_compute; reflexivity).
+            pose proof (forallb_zrange 65 _ H k ltac:(lia)) as Hq. cbv beta in Hq. unfold e64 in Hq. unfold byte. lia.
+          + rewrite nth_overflow by (change (length base64_encode_table) with 65%nat; lia). unfold byte; lia. }
       assert (Hp : byte PAD) by (unfold byte, PAD; lia).
       remember (length (flat d)) as n eqn:Hn. assert (Hl : (length (flat d) <= n)%nat) by lia. clear Hn.
       revert Hb Hl. generalize (flat d) as l. induction n as [|n IH]; intros l Hb Hl.
